@@ -55,3 +55,12 @@ void igris_verif_use_timer32(igris::timer_manager_basic<U32> &m, VTimer<U32> &t,
     igris::timer_manager_basic<U32> fresh;
     VTimer<U32> local;
 }
+
+// igris::timer<Args...> (timer_basic): execute() forwards to the stored delegate
+static void igris_verif_cb(int) {}
+void igris_verif_use_timer_basic(igris::timer_manager &m)
+{
+    igris::timer<int> t(igris::make_delegate(igris_verif_cb), 7);
+    m.plan(t, 0, 10);
+    t.execute();
+}
